@@ -1,6 +1,6 @@
 CONFIG = dict(
     coqfiles=["Props/C16N.v"],
-    n_quick=6000, n_thorough=300000, workers_quick=8,
+    n_quick=4000, n_thorough=300000, workers_quick=8,
     rule="sub-check of C16: NESTED error handling. Buffers are trees: a plain buffer of C16 (CAS chunk-reader / reader buffer, byte slice, error buffer) or WithErrorHandler(tree, scripted handler) whose "
          "answers are again such trees or errors (depth <= 4 generated, <= 10 accepted). 45% directed: the original stream fails after f1 bytes (80% f1 > 0), the replacement is a WRAPPED stream failing "
          "after f2 >= f1 bytes, its handler supplies the second-level replacement (35% wrapped and failing once more; 10% it gives up and the outer handler is asked), optional answer-less wrappers; "
